@@ -577,6 +577,26 @@ pub type Leaf { #[base] pub mid: Mid, pub x: u8 }
 pub type PlainLeaf { #[base] pub mid: Mid, pub x: u32, _: unknown<4> }
 pub type Own { vftable { pub fn f(&self) -> u32; pub fn g(&mut self, a: u32); pub fn h(&self); }, #[base] pub base: Root }
 "##.into())]));
+    // parameters named like things the wrappers use themselves (`This`, `this`, `self_`, `vftable`, `f`): the wrapper of a virtual
+    // function reads the slot of the table of the object it is called on, whatever its parameters are called (seed C04-7)
+    c.push(("parameters-named-like-the-receiver", vec![("m", r##"
+pub type IStream {
+    vftable {
+        pub fn CopyTo(&mut self, This: *mut IStream, count: u64) -> u32;
+        pub fn Peek(&self, this: *const IStream, vftable: u32) -> u32;
+        #[calling_convention("stdcall")]
+        pub fn Seek(&mut self, self_: *mut IStream, f: u32);
+    },
+    pub pos: u32,
+    _: unknown<4>,
+}
+impl IStream {
+    #[address(0x401000)]
+    pub fn open(This: *mut IStream, this: u32) -> u32;
+    #[address(0x401010)]
+    pub fn close(&mut self, This: *mut IStream, vftable: *const IStream);
+}
+"##.into())]));
     c.push(("packed-aligned", vec![("m", "#[packed]\npub type PackedAligned {\n    pub a: u32,\n    pub b: u32,\n}\n#[packed]\npub type PackedPointer {\n    pub p: *const u8,\n    pub xs: [u16; 4],\n}\npub type Holder {\n    pub tag: u8,\n    pub inner: PackedAligned,\n    _: unknown<7>,\n    pub q: *const u8,\n    pub r: *const u8,\n}\n".to_string())]));
     // a user type named like a built-in, imported by name (the import outranks the built-in)
     c.push(("import-named-like-builtin", vec![
